@@ -7,6 +7,7 @@ package c15
 
 import (
 	"github.com/lni/dragonboat/v4/internal/fileutil"
+	"github.com/lni/dragonboat/v4/internal/registry"
 	"github.com/lni/dragonboat/v4/internal/rsm"
 	"github.com/lni/dragonboat/v4/internal/server"
 	"github.com/lni/dragonboat/v4/internal/settings"
@@ -32,6 +33,14 @@ type (
 	SnapshotWriter = rsm.SnapshotWriter
 	// ChunkWriter is the stream mode sender.
 	ChunkWriter = rsm.ChunkWriter
+	// Transport is the transport layer (send glue: SendSnapshot, jobs, status reports).
+	Transport = transport.Transport
+	// IMessageHandler receives what the transport layer reports to the NodeHost.
+	IMessageHandler = transport.IMessageHandler
+	// ITransportEvent receives connection events.
+	ITransportEvent = transport.ITransportEvent
+	// Env is the server environment a Transport needs.
+	Env = server.Env
 )
 
 var (
@@ -61,6 +70,14 @@ var (
 	SendSnapshot = transport.VerifSendSnapshot
 	// StreamJob starts a streaming mode sender job.
 	StreamJob = transport.VerifStreamJob
+	// NewTransport creates the transport layer.
+	NewTransport = transport.NewTransport
+	// TransportChunks returns a Transport's receiver.
+	TransportChunks = transport.VerifTransportChunks
+	// NewEnv creates the server environment.
+	NewEnv = server.NewEnv
+	// GetWitnessSnapshot returns the content of a witness snapshot.
+	GetWitnessSnapshot = rsm.GetWitnessSnapshot
 	// NewMemFS returns the in-memory file system.
 	NewMemFS = vfs.NewMemFS
 	// NewSnapshotWriter creates a snapshot file writer.
@@ -96,5 +113,10 @@ func SoftSettings() (gcTick uint64, timeoutTick uint64, slots uint64) {
 
 // Exist reports whether a path exists.
 func Exist(name string, fs vfs.IFS) (bool, error) { return fileutil.Exist(name, fs) }
+
+// NewNodeRegistry creates the address registry used as the Transport's resolver.
+func NewNodeRegistry() *registry.Registry {
+	return registry.NewNodeRegistry(settings.Soft.StreamConnections, nil)
+}
 
 var _ = pb.Chunk{}
